@@ -31,7 +31,9 @@ class Prop:
         return cfgs
 
     def runs_for(self, adapter: Any, cfg: Dict[str, Any], tier: str) -> int:
-        return self.quick_runs
+        if self.custom:
+            return self.quick_runs
+        return int(self.quick_runs * getattr(adapter, "run_scale", 1))
 
     def shards(self, adapter: Any, cfg: Dict[str, Any], tier: str) -> int:
         return 1
